@@ -505,4 +505,200 @@ theorem enumUnderlying_fix {b : IntTy} {items : List EnumItem} {t : IntTy} (hb :
     subst h
     have := enumLoop_fix hb items { et := b } 0 sf ⟨by simp, rfl, Or.inl rfl⟩ hw hl
     simp only [Abi.enumUnderlying, this, ↓reduceIte]
+/-! ### Acceptance: an enum the spec gives a type to is not rejected -/
+
+theorem enumPick_nofix_complete {s : EnumSt} {next : Int} {sgn : Bool} {vs : List Int} {it : EnumItem}
+    {its : List EnumItem} (h : EJ s next sgn vs) (hsp : enumValues next sgn (it :: its) ≠ none) :
+    ∃ r, enumPick false s it = .ok r := by
+  obtain ⟨b1, b2⟩ := lo_hi_bounds h.valid
+  have hval := h.value; have hrange := h.range; have huns := h.uns; have hsg := h.sg
+  cases it with
+  | explicit u ty => exact ⟨(u64 u, if typehasint tInt (u64 u) ty.signed = true then tInt else ty), by simp only [enumPick, Bool.not_false, ↓reduceIte]⟩
+  | implicit =>
+    have hvl : s.value < 2 ^ 64 := by omega
+    have hc : ¬ ((sgn && decide (next > 2 ^ 63 - 1) || !sgn && decide (next > 2 ^ 64 - 1)) = true) := by
+      intro hc; apply hsp; simp only [enumValues, hc, ↓reduceIte]
+    have c1 : ((s.value == 0 && !s.et.signed) || (s.value == 9223372036854775808 && s.et.signed)) = false := by
+      cases hsig : s.et.signed with
+      | true =>
+        obtain ⟨d1, d2, d3, d4⟩ := b1 hsig
+        rw [hsig] at hsg; subst hsg
+        simp only [Bool.true_and, decide_eq_true_eq, Bool.not_true, Bool.false_and, Bool.or_false] at hc
+        simp only [Bool.not_true, Bool.and_false, Bool.and_true, Bool.false_or, beq_eq_false_iff_ne, ne_eq]
+        omega
+      | false =>
+        obtain ⟨d1, d2, d3⟩ := b2 hsig
+        rw [hsig] at hsg; subst hsg
+        simp only [Bool.false_and, Bool.not_false, Bool.true_and, Bool.false_or, decide_eq_true_eq] at hc
+        simp only [Bool.not_false, Bool.and_true, Bool.and_false, Bool.or_false, beq_eq_false_iff_ne, ne_eq]
+        omega
+    simp only [enumPick, c1, Bool.false_eq_true, ↓reduceIte]
+    by_cases c2 : typehasint s.et s.value s.et.signed = true
+    · exact ⟨(s.value, s.et), by simp only [c2, Bool.not_true, Bool.false_eq_true, ↓reduceIte]⟩
+    · have h8 : typehasint ⟨8, s.et.signed⟩ s.value s.et.signed = true := by
+        apply (typehasint_iff (t := ⟨8, s.et.signed⟩) (Or.inr (Or.inr (Or.inr rfl))) hvl s.et.signed).2
+        unfold Represents lo hi val64
+        simp only [Bool.or_eq_false_iff, Bool.and_eq_false_iff] at c1
+        cases hsig : s.et.signed with
+        | true =>
+          obtain ⟨d1, d2, d3, d4⟩ := b1 hsig
+          simp only [↓reduceIte, Bool.true_and, decide_eq_true_eq]
+          split <;> omega
+        | false =>
+          obtain ⟨d1, d2, d3⟩ := b2 hsig
+          simp only [Bool.false_eq_true, ↓reduceIte, Bool.false_and]
+          omega
+      obtain ⟨t, ht1, _⟩ := find_inttypes s.et.signed (fun t => typehasint t s.value s.et.signed) h8
+      exact ⟨(s.value, t), by simp only [c2, Bool.not_false, ↓reduceIte, ht1]⟩
+
+theorem enumLoop_nofix_complete : ∀ (items : List EnumItem) (s : EnumSt) (next : Int) (sgn : Bool)
+    (vs : List Int), EJ s next sgn vs → ItemsWf items → enumValues next sgn items ≠ none →
+    ∃ sf, enumLoop false s items = .ok sf
+  | [], s, _, _, _, _, _, _ => ⟨s, rfl⟩
+  | it :: its, s, next, sgn, vs, h, hw, hsp => by
+    obtain ⟨⟨value, et⟩, hp⟩ := enumPick_nofix_complete h hsp
+    obtain ⟨v, hspec, hv, hvl, hr, het, hsg⟩ := enumPick_nofix h (hw it (by simp)) hp
+    have h' := record_ok' h hv hvl hr het hsg
+    have hsp' : enumValues (v + 1) et.signed its ≠ none := by
+      intro hn; apply hsp; rw [hspec its, hn]; rfl
+    obtain ⟨sf, hl⟩ := enumLoop_nofix_complete its _ _ _ _ h' (fun x hx => hw x (by simp [hx])) hsp'
+    exact ⟨sf, by simp only [enumLoop, enumStep, hp, hl]⟩
+
+theorem enumUnderlying_nofix_complete {items : List EnumItem} {t : IntTy} (hw : ItemsWf items)
+    (h : Abi.enumUnderlying none items = some t) : Layout.enumUnderlying none items = .ok t := by
+  have hsp : enumValues 0 true items ≠ none := by
+    intro hn; simp [Abi.enumUnderlying, hn] at h
+  obtain ⟨sf, hl⟩ := enumLoop_nofix_complete items {} 0 true [] EJ_init hw hsp
+  obtain ⟨vals, n', s', e1, ej⟩ := enumLoop_nofix items {} 0 true [] sf EJ_init hw hl
+  simp only [List.nil_append] at ej
+  -- it suffices that the model does not end in `enumNoFit`: then soundness identifies the type
+  suffices hok : ∃ t', Layout.enumUnderlying none items = .ok t' by
+    obtain ⟨t', ht'⟩ := hok
+    have := enumUnderlying_nofix hw ht'
+    rw [h] at this
+    cases this
+    exact ht'
+  have hM := ej.maxlt; have hm := ej.minle
+  have hany := any_neg_iff ej.minlb ej.minat
+  have hall : ∀ t', ValidTy t' → (vals.all (fun v => decide (Represents t' v)) = true ↔
+      (Represents t' sf.max ∧ Represents t' (-(sf.min : Int)))) :=
+    fun t' ht' => all_represents_iff ht' ej.maxub ej.maxat ej.minlb ej.minat
+  simp only [Layout.enumUnderlying, hl]
+  by_cases hA : (decide (sf.min ≤ 0x80000000) && decide (sf.max ≤ 0x7fffffff)) = true
+  · exact ⟨_, by simp only [hA, ↓reduceIte] <;> rfl⟩
+  · simp only [hA, Bool.false_eq_true, ↓reduceIte]
+    simp only [Abi.enumUnderlying, e1, hany] at h
+    generalize hsg : decide (sf.min > 0) = sg at h ⊢
+    have hp : ∀ t', ValidTy t' → vals.all (fun v => decide (Represents t' v)) = true →
+        (typehasint t' sf.max false && typehasint t' (sub64 0 sf.min) true) = true := by
+      intro t' ht' ha
+      have h1 := typehasint_iff ht' hM false
+      have h2 := typehasint_iff (i := sub64 0 sf.min) ht' (by unfold sub64 u64 M64; omega) true
+      rw [val64_neg hm] at h2
+      have hv : val64 sf.max false = sf.max := by simp [val64]
+      rw [hv] at h1
+      have := (hall t' ht').1 ha
+      simp [h1.2 this.1, h2.2 this.2]
+    simp only [List.find?] at h
+    simp only [inttypes, List.find?]
+    cases h4 : vals.all (fun v => decide (Represents ⟨4, sg⟩ v)) with
+    | true =>
+      have := hp ⟨4, sg⟩ (Or.inr (Or.inr (Or.inl rfl))) h4
+      exact ⟨_, by simp only [this] <;> rfl⟩
+    | false =>
+      simp only [h4] at h
+      cases h8 : vals.all (fun v => decide (Represents ⟨8, sg⟩ v)) with
+      | true =>
+        have p8 := hp ⟨8, sg⟩ (Or.inr (Or.inr (Or.inr rfl))) h8
+        cases p4 : (typehasint ⟨4, sg⟩ sf.max false && typehasint ⟨4, sg⟩ (sub64 0 sf.min) true) with
+        | true => exact ⟨_, rfl⟩
+        | false => exact ⟨_, by simp only [p8] <;> rfl⟩
+      | false => simp [h8] at h
+
+/-- fixed underlying type: the loop does not fail when every value is representable, *unless*
+the type is unsigned and the very first enumerator has no `=` (see `enum_accepts_counterexample`) -/
+theorem enumLoop_fix_complete {b : IntTy} (hb : ValidTy b) : ∀ (items : List EnumItem) (s : EnumSt)
+    (next : Int), FJ b s next → ItemsWf items →
+    (next = 0 → b.signed = true ∨ items.head? ≠ some .implicit ∨ (lo b + 1 ≤ next ∧ next ≤ hi b + 1)) →
+    (enumValuesFixed next items).all (fun v => decide (Represents b v)) = true →
+    ∃ sf, enumLoop true s items = .ok sf
+  | [], s, _, _, _, _, _ => ⟨s, rfl⟩
+  | it :: its, s, next, h, hw, h0, hall => by
+    obtain ⟨b1, b2⟩ := lo_hi_bounds hb
+    have hval := h.value; have het := h.et; have hrange := h.range
+    have hpick : ∃ r, enumPick true s it = .ok r := by
+      cases it with
+      | explicit u ty =>
+        obtain ⟨hu, hty, hrep⟩ := hw (EnumItem.explicit u ty) (by simp)
+        have hu64 : u64 u = u := u64_of_lt (by unfold M64; omega)
+        simp only [enumValuesFixed, List.all_cons, Bool.and_eq_true, decide_eq_true_eq] at hall
+        have hfit : typehasint b u ty.signed = true := by
+          apply (typehasint_iff hb hu ty.signed).2
+          rw [← constValue_eq ty hu]; exact hall.1
+        exact ⟨(u, b), by simp only [enumPick, Bool.not_true, Bool.false_eq_true, ↓reduceIte, hu64, het, hfit]⟩
+      | implicit =>
+        simp only [enumValuesFixed, List.all_cons, Bool.and_eq_true, decide_eq_true_eq] at hall
+        have hr := hall.1
+        unfold Represents at hr
+        have hvl : s.value < 2 ^ 64 := by omega
+        have hrg : b.signed = true ∨ (lo b + 1 ≤ next ∧ next ≤ hi b + 1) := by
+          rcases hrange with h00 | hr2
+          · rcases h0 h00 with a | a | a
+            · exact Or.inl a
+            · simp at a
+            · exact Or.inr a
+          · exact Or.inr hr2
+        have c1 : ((s.value == 0 && !b.signed) || (s.value == 9223372036854775808 && b.signed)) = false := by
+          cases hsig : b.signed with
+          | true =>
+            obtain ⟨d1, d2, d3, d4⟩ := b1 hsig
+            simp only [Bool.not_true, Bool.and_false, Bool.and_true, Bool.false_or, beq_eq_false_iff_ne, ne_eq]
+            rcases hrange with h00 | hr2 <;> omega
+          | false =>
+            obtain ⟨d1, d2, d3⟩ := b2 hsig
+            simp only [Bool.not_false, Bool.and_true, Bool.and_false, Bool.or_false, beq_eq_false_iff_ne, ne_eq]
+            rcases hrg with a | a
+            · rw [hsig] at a; cases a
+            · omega
+        have hn : val64 s.value b.signed = next := by
+          unfold val64
+          cases hsig : b.signed with
+          | true =>
+            obtain ⟨d1, d2, d3, d4⟩ := b1 hsig
+            simp only [Bool.true_and, decide_eq_true_eq]
+            split <;> omega
+          | false =>
+            obtain ⟨d1, d2, d3⟩ := b2 hsig
+            simp only [Bool.false_and, Bool.false_eq_true, ↓reduceIte]
+            omega
+        have c2 : typehasint b s.value b.signed = true := by
+          apply (typehasint_iff hb hvl b.signed).2
+          rw [hn]; exact hall.1
+        exact ⟨(s.value, b), by simp only [enumPick, het, c1, c2, Bool.false_eq_true, Bool.not_true, ↓reduceIte]⟩
+    obtain ⟨⟨value, et⟩, hp⟩ := hpick
+    obtain ⟨v, he, hr, hv, hspec⟩ := enumPick_fix hb h (hw it (by simp)) hp
+    subst he
+    have h' : FJ et (enumRecord s value et) (v + 1) := by
+      refine ⟨?_, rfl, Or.inr ?_⟩
+      · simp only [enumRecord, u64, M64]; omega
+      · unfold Represents at hr; omega
+    rw [hspec its] at hall
+    simp only [List.all_cons, Bool.and_eq_true] at hall
+    obtain ⟨sf, hl⟩ := enumLoop_fix_complete hb its _ _ h' (fun x hx => hw x (by simp [hx]))
+      (fun _ => Or.inr (Or.inr (by unfold Represents at hr; omega))) hall.2
+    exact ⟨sf, by simp only [enumLoop, enumStep, hp, hl]⟩
+
+theorem enumUnderlying_fix_complete {b : IntTy} {items : List EnumItem} {t : IntTy} (hb : ValidTy b)
+    (hw : ItemsWf items) (hx : b.signed = true ∨ items.head? ≠ some .implicit)
+    (h : Abi.enumUnderlying (some b) items = some t) : Layout.enumUnderlying (some b) items = .ok t := by
+  simp only [Abi.enumUnderlying] at h
+  split at h
+  · rename_i hall
+    simp only [Option.some.injEq] at h
+    subst h
+    obtain ⟨sf, hl⟩ := enumLoop_fix_complete hb items { et := b } 0 ⟨by simp, rfl, Or.inl rfl⟩ hw
+      (fun _ => by rcases hx with a | a; exact Or.inl a; exact Or.inr (Or.inl a)) hall
+    simp only [Layout.enumUnderlying, hl]
+  · cases h
+
 end CprocVerif.Layout
